@@ -8,6 +8,7 @@ DECIDED = ("R1 Tcb::send_buf grows only in tcp::poll_send, by min(buf.len(), sen
            "false edge of `len > max_payload` and the true edge returns EMSGSIZE; R5 windows advertised on an existing connection "
            "come from advertised_window(recv_cap, recv_buf.len()).")
 NOT_DECIDED = "the numeric invariants over all interleavings (they follow from R1-R5 only together with arithmetic we do not prove)."
+DECIDED += "; R3 also: the window operand of the min chain is snd_wnd minus the bytes in flight"
 ASSUMPTIONS = ["usize::min / saturating_sub semantics"]
 
 T = "turmoil_net::kernel::socket::Tcb::"
